@@ -704,6 +704,16 @@ func (j *emuJudge) judge(d *emuCurveDesc, c *emuCase, o outcome) {
 		dom = "outside-domain"
 	}
 	scs, icls := d.inputClass(c)
+	if d.fam == "nsw" {
+		// the 2-chain Curve wrapper packs the limbs of an emulated scalar into a
+		// native variable: there the representation (value >= r), not the
+		// residue class, decides
+		for _, k := range c.Ks {
+			if k.Cmp(d.c.R) >= 0 {
+				icls = "unreduced-scalar(r<=s<2^bits(r))"
+			}
+		}
+	}
 	switch {
 	case o.Sat && o.Correct:
 		r.Count(f+"."+dom+".correct", 1)
